@@ -20,6 +20,7 @@ def run(tier, seed, only=None):
     cfgs = [("symL_2x2", 2, 2, False), ("symL_3x3", 3, 3, False), ("symR_2x3", 2, 3, True)]
     if tier == "thorough":
         cfgs += [("symL_2x3", 2, 3, False), ("symR_2x2", 2, 2, True), ("symL_3x2", 3, 2, False), ("symL_4x4", 4, 4, False), ("symR_4x3", 4, 3, True), ("symL_2x6", 2, 6, False)]
+    two_surfaces(rep, timeout)
     for (cn, nx, ny, right) in cfgs:
         s = K.surface(nx, ny, np.True_ if right else True, right=right, groundplane=np.True_ if nx == 3 else True)
         P = pipe.vlm_states([s])
@@ -85,6 +86,73 @@ def run(tier, seed, only=None):
                        "rejection of ground effect without symmetry is checked in C20"]
     return rep.finish("C08 (reduced): AIC, rhs and forces of the real pipeline with groundplane=True == an independently written image system "
                       "(reflection about the alpha-rotated plane through n*h, image strength -1), entry by entry")
+
+
+def two_surfaces(rep, timeout):
+    """two surfaces in ground effect in one model: every surface is mirrored about the *same* plane at height_agl"""
+    s1 = K.surface(2, 2, True, name="wing", groundplane=True)
+    s2 = K.surface(2, 2, True, name="tail", groundplane=True)
+    ss = [s1, s2]
+    P = pipe.vlm_states(ss)
+    P.encode(rep)
+    ms = {}
+    for s_ in ss:
+        m_ = symarray(s_["name"] + "_def_mesh", (2, 2, 3))
+        for i in range(2):
+            m_[i, 1, 1] = ZERO
+        ms[s_["name"]] = m_
+    npan = 2
+    al, v, rho, h = var("alpha"), var("v"), var("rho"), var("height_agl")
+    gam = symarray("circulations", (npan,))
+    given = {"alpha": [al], "beta": [ZERO], "v": [v], "rho": [rho], "height_agl": [h], "circulations": gam}
+    given.update({n_ + "_def_mesh": m_ for n_, m_ in ms.items()})
+    ns, free = P.run(given, units={"alpha": "deg", "beta": "deg", "v": "m/s", "rho": "kg/m**3", "height_agl": "m"})
+    ref = c05.reference([c05.RefSurface(ms[s_["name"]], True, ground_height=h) for s_ in ss], al, ZERO, v)
+    obs = []
+    for r in range(npan):
+        obs.append(oblig.Ob("rhs[%d]" % r, lhs=ns["rhs"][r], rhs=ref["rhs"][r], meta={"family": "right-hand side is unchanged by the ground plane (two surfaces)", "kind": "rhs", "idx": [r]}))
+        for c in range(npan):
+            obs.append(oblig.Ob("mtx[%d,%d]" % (r, c), lhs=ns["mtx"][r, c], rhs=ref["mtx"][r, c],
+                                meta={"family": "two surfaces in ground effect: each is mirrored about the same plane at height_agl", "kind": "mtx", "idx": [r, c]}))
+
+    def rp2(ob, env):
+        import openmdao.api as om
+        from openaerostruct.aerodynamics.geometry import VLMGeometry
+        from openaerostruct.aerodynamics.states import VLMStates
+
+        al_, hh = np.radians(5.0), 2.5
+        mv = {"wing": K.rect_mesh(2, 2, True, jitter=0.2, seed=3), "tail": K.rect_mesh(2, 2, True, jitter=0.2, seed=5) + np.array([4.0, 0.0, 0.6])}
+
+        def run(surfaces, meshes):
+            prob = om.Problem(reports=False)
+            ivc = om.IndepVarComp()
+            for n_, v_, u_ in (("alpha", 5.0, "deg"), ("beta", 0.0, "deg"), ("v", 10.0, "m/s"), ("rho", 1.1, "kg/m**3"), ("height_agl", hh, "m")):
+                ivc.add_output(n_, val=v_, units=u_)
+            for sx, mm in zip(surfaces, meshes):
+                ivc.add_output(sx["name"] + "_def_mesh", val=mm, units="m")
+            prob.model.add_subsystem("ivc", ivc, promotes=["*"])
+            for sx in surfaces:
+                prob.model.add_subsystem(sx["name"] + "_geom", VLMGeometry(surface=sx), promotes_inputs=[("def_mesh", sx["name"] + "_def_mesh")],
+                                         promotes_outputs=[("normals", sx["name"] + "_normals")])
+            prob.model.add_subsystem("states", VLMStates(surfaces=surfaces), promotes=["*"])
+            prob.setup()
+            prob.run_model()
+            return prob
+
+        pg = run(ss, [mv["wing"], mv["tail"]])
+        n = np.array([np.sin(al_), 0.0, -np.cos(al_)])
+        imgs = {k_: m_ - 2 * ((m_ - n * hh) @ n)[..., None] * n for k_, m_ in mv.items()}
+        free_s = [dict(s1, groundplane=False), dict(s2, groundplane=False), dict(s1, groundplane=False, name="wing_image"), dict(s2, groundplane=False, name="tail_image")]
+        pf = run(free_s, [mv["wing"], mv["tail"], imgs["wing"], imgs["tail"]])
+        Ag, Af = np.array(pg.get_val("mtx")), np.array(pf.get_val("mtx"))
+        r, c = (ob.meta["idx"] + [0])[:2]
+        if ob.meta["kind"] == "rhs":
+            return model.differs(pg.get_val("rhs")[r], pf.get_val("rhs")[r], 1e-6), "rhs[%d] = %.9g vs %.9g" % (r, pg.get_val("rhs")[r], pf.get_val("rhs")[r])
+        ref_ = Af[r, c] - Af[r, npan + c]
+        return model.differs(Ag[r, c], ref_, 1e-6), "two surfaces in ground effect: AIC[%d,%d] = %.9g, free-air minus explicit images at height_agl = %.9g" % (r, c, Ag[r, c], ref_)
+
+    run_obligations(rep, "ground effect vs method of images [two surfaces]", obs, timeout, replay=rp2, levels=(1, 2), relate=[],
+                    family=lambda ob: "ground effect: " + ob.meta["family"], fixed={"alpha": (4.0, -4.0), "v": 10.0, "rho": 1.1, "height_agl": 3.0})
 
 
 def replay(ob, env, s, m):
